@@ -192,6 +192,8 @@ pub struct Noise {
     pub foreign_pct: u8,
     pub never_pct: u8,
     pub garbage_pct: u8,
+    /// Percent chance, per probe sent, of injecting a randomly mutated / truncated copy of a valid response.
+    pub mutant_pct: u8,
     /// Foreign responses use a zero trace identifier (the F7 corner) when set.
     pub foreign_zero_id: bool,
 }
